@@ -13,7 +13,7 @@ M == 524287
 R == INSTANCE C03_Rcmgr WITH Conns <- <<>>, Streams <- <<>>, Spans <- <<>>, Peers <- {}, Protos <- {}, Svcs <- {},
        Eps <- {}, EpIP <- <<>>, EpBuckets <- <<>>, Cap <- <<>>, AllowNet <- {}, AllowPeer <- {}, Lim <- <<>>, Inf <- M,
        Sizes <- {}, Prios <- {}, Dirs <- {}, Fds <- {}, ViewScopes <- {}, Kinds <- {}, Threads <- <<"t1">>,
-       Sequential <- TRUE, FaithfulGC <- FALSE, Preload <- <<>>, w <- x, op <- x
+       Sequential <- TRUE, Preload <- <<>>, w <- x, op <- x
 
 \* symbolic values: <<base, offset>> with base "0" (absolute), "L" (the limit), "M" (MaxInt)
 Val(v, L) == (IF v[1] = "0" THEN 0 ELSE IF v[1] = "L" THEN L ELSE M) + v[2]
@@ -26,14 +26,13 @@ Grid == {g \in [l : LimitSyms, m : ValSyms, r : ValSyms, p : PrioSet] :
            InRange(Val(g.m, Val(g.l, 0))) /\ InRange(Val(g.r, Val(g.l, 0)))}
 Code(g) == LET L == Val(g.l, 0) IN R!CheckMemoryCode(Val(g.m, L), Val(g.r, L), L, g.p, M)
 Ideal(g) == LET L == Val(g.l, 0) IN R!CheckMemoryIdeal(Val(g.m, L), Val(g.r, L), L, g.p, M)
-\* the transcription agrees with the statement's rule wherever the current usage is itself legal ...
+\* the transcription agrees with the statement's rule wherever the current usage is itself legal
 Legal(g) == LET L == Val(g.l, 0) IN L = M \/ Val(g.m, L) <= L
-\* ... except where an unlimited scope is asked for more than fits in the machine integer: the code grants
-\* and the counter wraps (known finding bounds:reserve:unlimited-scope-memory-overflows-int64)
+\* regression (64fc8f8): an unlimited scope asked for more than fits in the machine integer refuses
 Wraps(g) == LET L == Val(g.l, 0) IN L = M /\ Val(g.m, L) + Val(g.r, L) > M
-ASSUME \E g \in Grid : Wraps(g) /\ Code(g) /\ ~Ideal(g)
+ASSUME (\E g \in Grid : Wraps(g)) /\ \A g \in Grid : Wraps(g) => ~Code(g)
 ASSUME \A g \in Grid : PrintT(<<"VFGRID", ToJson([l |-> g.l, m |-> g.m, r |-> g.r, p |-> g.p, g |-> Code(g)])>>)
-ASSUME \A g \in Grid : (Legal(g) /\ ~Wraps(g)) => Code(g) = Ideal(g)
+ASSUME \A g \in Grid : Legal(g) => Code(g) = Ideal(g)
 \* exhaustively for a small machine too (7-bit values, every priority)
 ASSUME \A L \in 0..40, m \in 0..40, r \in 0..40, p \in {0, 1, 31, 127, 128, 200, 255} :
           m <= L => R!CheckMemoryCode(m, r, L, p, M) = R!CheckMemoryIdeal(m, r, L, p, M)
